@@ -404,6 +404,22 @@ func updateBaselineFile(id string, obls []*Obl) {
 			l = append(l, o.Name)
 		}
 	}
+	// union with what the property's file already lists (a quick-tier update must not drop the
+	// thorough-tier obligations recorded by an earlier thorough run)
+	if b, err := os.ReadFile("/verif/baseline/" + id + ".json"); err == nil {
+		var old []string
+		if json.Unmarshal(b, &old) == nil {
+			have := map[string]bool{}
+			for _, n := range l {
+				have[n] = true
+			}
+			for _, n := range old {
+				if !have[n] {
+					l = append(l, n)
+				}
+			}
+		}
+	}
 	sort.Strings(l)
 	os.MkdirAll("/verif/baseline", 0o755)
 	// one file per property (so that concurrent updates of different properties do not collide);
